@@ -66,6 +66,26 @@ def rule_poly(rep, R, mod, names):
     return out
 
 
+def coerced_once(xarg):
+    """The fractional offset must be computed in the position type (f64) and converted to the sample type last:
+    `T::coerce(<expr without coerce>)`.  Converting the position itself to T (f32: 24-bit mantissa) before taking the
+    fractional part quantises the evaluation instant for large positions."""
+    if xarg is None:
+        return False
+    top = (xarg.get("k") == "call" and is_path(xarg["f"]) and xarg["f"]["p"] in ("T::coerce", "Self::coerce")) or (xarg.get("k") == "macro" and xarg["name"] == "t")
+    if not top:
+        return False
+    inner = xarg["args"][0] if xarg.get("args") else None
+    if inner is None:
+        return False
+    for y in walk(inner):
+        if (y.get("k") == "call" and is_path(y["f"]) and y["f"]["p"].endswith("coerce")) or (y.get("k") == "macro" and y["name"] == "t"):
+            return False
+        if y.get("k") == "cast" and y["ty"].replace(" ", "") == "f32":
+            return False
+    return True
+
+
 def fast_arm_window(a, alg):
     """(blend fn name, lo expr, width, k, x expr) from the single write of a fast arm."""
     ws = a.get("writes", [])
@@ -121,6 +141,11 @@ def rule_window(rep, R, polys=None):
             pinfo = polys.get(want[0])
             xv = alg.conv(xarg) if xarg is not None else None
             x_ok = xv is not None and sp.simplify(xv - (idx - floor_f(idx))) == 0
+            prec_ok = coerced_once(xarg)
+            if x_ok and not prec_ok:
+                rep.ob(R, key + "/offset-precision", False,
+                       "the fractional offset `%s` is not computed in f64 and converted last: converting the position to the sample type before subtracting loses the fraction for f32 at large positions" % show(xarg)[:100],
+                       loc(m["fn"], a["node"]))
             ok = (fname == want[0] and pinfo is not None and pinfo["k0"] is not None and k == pinfo["k0"] and sp.simplify(width - pinfo["n"]) == 0 and base_ok and x_ok)
             rep.ob(R, key, ok,
                    "arm calls %s on %s samples starting at floor(idx) − %s, x = %s; the blend function %s interpolates %s points with node 0 at position %s and needs x = idx − floor(idx)"
